@@ -3,6 +3,7 @@ use crate::engine::{entry, DynProperty};
 pub mod c01;
 pub mod c02;
 pub mod c03;
+pub mod c04;
 pub mod c05;
 pub mod c06;
 pub mod c07;
@@ -24,5 +25,5 @@ pub mod frontends;
 pub mod selftest;
 
 pub fn registry() -> Vec<Box<dyn DynProperty>> {
-    vec![entry(c01::C01), entry(c02::C02), entry(c03::C03), entry(c05::C05), entry(c06::C06), entry(c07::C07), entry(c08::C08), entry(c09::C09), entry(c10::C10), entry(c11::C11), entry(c12::C12), entry(c13::C13), entry(c14::C14), entry(c15::C15), entry(c16::C16), entry(c17::C17), entry(c18::C18), entry(c19::C19), entry(c20::C20)]
+    vec![entry(c01::C01), entry(c02::C02), entry(c03::C03), entry(c04::C04), entry(c05::C05), entry(c06::C06), entry(c07::C07), entry(c08::C08), entry(c09::C09), entry(c10::C10), entry(c11::C11), entry(c12::C12), entry(c13::C13), entry(c14::C14), entry(c15::C15), entry(c16::C16), entry(c17::C17), entry(c18::C18), entry(c19::C19), entry(c20::C20)]
 }
